@@ -146,6 +146,7 @@ class SimulatorImaging:
                 fill_value=self.noise_if_add_noise_false,
                 shape_native=image.shape_native,
                 pixel_scales=image.pixel_scales,
+                origin=image.origin,
             )
 
         if np.isnan(noise_map).any():
@@ -158,7 +159,9 @@ class SimulatorImaging:
             image = image - background_sky_map
 
         mask = Mask2D.all_false(
-            shape_native=image.shape_native, pixel_scales=image.pixel_scales
+            shape_native=image.shape_native,
+            pixel_scales=image.pixel_scales,
+            origin=image.origin,
         )
 
         image = Array2D(values=image, mask=mask)
